@@ -166,7 +166,8 @@ def rooms(
         dtype=int,
     )
 
-    if len(y_splits) != len(set(y_splits)):
+    # NOTE: every room needs an interior (consecutive walls at least 2 apart)
+    if any(b - a < 2 for a, b in mitt.pairwise(y_splits)):
         raise ValueError(
             f'insufficient height ({shape.height}) for layout ({layout})'
         )
@@ -178,7 +179,8 @@ def rooms(
         dtype=int,
     )
 
-    if len(x_splits) != len(set(x_splits)):
+    # NOTE: every room needs an interior (consecutive walls at least 2 apart)
+    if any(b - a < 2 for a, b in mitt.pairwise(x_splits)):
         raise ValueError(
             f'insufficient width ({shape.width}) for layout ({layout})'
         )
@@ -535,7 +537,8 @@ def memory_rooms(
         dtype=int,
     )
 
-    if len(y_splits) != len(set(y_splits)):
+    # NOTE: every room needs an interior (consecutive walls at least 2 apart)
+    if any(b - a < 2 for a, b in mitt.pairwise(y_splits)):
         raise ValueError(
             f'insufficient shape.height ({shape.height}) for layout ({layout})'
         )
@@ -547,7 +550,8 @@ def memory_rooms(
         dtype=int,
     )
 
-    if len(x_splits) != len(set(x_splits)):
+    # NOTE: every room needs an interior (consecutive walls at least 2 apart)
+    if any(b - a < 2 for a, b in mitt.pairwise(x_splits)):
         raise ValueError(
             f'insufficient shape.width ({shape.width}) for layout ({layout})'
         )
